@@ -54,7 +54,8 @@ class P(Prop):
             out.append(dict(op="pw_eval", ty=ty, segs=[], xs=[0], meta={"class": "empty"}))
             out.append(dict(op="evaluator", ty=ty, segs=[], xs=[0], meta={"class": "empty"}))
             out.append(dict(op="evaluate_v", ty=ty, segs=[], xs=[0], meta={"class": "empty"}))
-        out += [c for c in self.c13.cases(rng, "quick") if "empty" in c["meta"]["class"] or "nan" in c["meta"]["class"]]
+        # every operation on well-formed input: reuse the structured streams of the operator properties
+        out += self.c13.cases(rng, "quick")
         return out
 
     def coq_term(self, case, h):
